@@ -142,7 +142,7 @@ def parse_h1_case(lines):
         elif re.match(r"^R\d+:", l): c["rows"].append([tuple(int(x) for x in e.split(",")) for e in l.split(":", 1)[1].split()])
         elif l.startswith("DIAG "):
             j = i + 1; d = []
-            while lines[j] != "ENDDIAG": d.append(lines[j]); j += 1
+            while j < len(lines) and lines[j] != "ENDDIAG": d.append(lines[j]); j += 1
             c["diag"] = "\n".join(d); i = j
         elif l.startswith("INPUTS skipped"): c["skipped"] = True
         elif l.startswith("IN "): c["inputs"].append({"res": None, "ctx": None, "err": "", "res2": None, "err2": "", "res3": None, "lexcalls": None})
@@ -153,11 +153,11 @@ def parse_h1_case(lines):
         elif l.startswith("LEXCALLS"): c["inputs"][-1]["lexcalls"] = l[8:].strip()
         elif l.startswith("ERR2 "):
             j = i + 1; d = []
-            while lines[j] != "ENDERR2": d.append(lines[j]); j += 1
+            while j < len(lines) and lines[j] != "ENDERR2": d.append(lines[j]); j += 1
             c["inputs"][-1]["err2"] = "\n".join(d); i = j
         elif l.startswith("ERR "):
             j = i + 1; d = []
-            while lines[j] != "ENDERR": d.append(lines[j]); j += 1
+            while j < len(lines) and lines[j] != "ENDERR": d.append(lines[j]); j += 1
             c["inputs"][-1]["err"] = "\n".join(d); i = j
         i += 1
     return c
@@ -168,6 +168,7 @@ def parse_h2_case(lines):
     while i < len(lines):
         l = lines[i]
         if l.startswith("ANALYZE "): c["analyze"] = l[8:]
+        elif l.startswith("ADS "): c["ads"] = l[4:]
         elif l.startswith("BUILD "): c["build"] = l[6:]
         elif l.startswith("LEXER "): c["lexer"] = l[6:]
         elif l.startswith("THROW "): c["throw"] = l[6:]
@@ -176,7 +177,7 @@ def parse_h2_case(lines):
             p = l.split(); c["matches"].append({"t": int(p[2]), "len": int(p[3]), "flags": p[4:], "v": ""})
         elif l.startswith("V "):
             j = i + 1; d = []
-            while lines[j] != "ENDV": d.append(lines[j]); j += 1
+            while j < len(lines) and lines[j] != "ENDV": d.append(lines[j]); j += 1
             c["matches"][-1]["v"] = "\n".join(d); i = j
         i += 1
     return c
